@@ -28,6 +28,10 @@ type c07Cfg struct {
 	STReply  int  `json:"streply"`   // 0 220, 1 454, 2 501, 3 garbage, 4 220 + injected plaintext
 	HS       int  `json:"hs"`        // 0 ok, 1 wrong-name cert, 2 untrusted cert, 3 garbage
 	AuthList int  `json:"authlist"`  // index into c07AuthLists
+	// Prev > 0: the same Client first completed a dial against a well-behaved TLS server (STARTTLS advertised,
+	// good certificate) that advertised AUTH list Prev-1 inside TLS, and closed it; the configuration above
+	// describes the server met by the SECOND dial, which is the one judged
+	Prev int `json:"prev,omitempty"`
 }
 
 var (
@@ -136,6 +140,36 @@ func c07Exec(r *vf.Run, cfg c07Cfg) []finding {
 	if err != nil {
 		r.HarnessError("C07 NewClient: %v", err)
 		return nil
+	}
+	if cfg.Prev > 0 && cfg.Policy != 3 {
+		// history: an earlier, successful connection of the same Client
+		prevCaps := []string{"STARTTLS", "8BITMIME"}
+		if l := c07AuthLists[cfg.Prev-1]; l != "" {
+			prevCaps = append(prevCaps, "AUTH "+l)
+		}
+		ps := &refsmtp.Session{Host: host, Caps: prevCaps}
+		pc := refsmtp.NewConn(ps)
+		pc.TLSConfig = hx.ServerTLS(mat.Good)
+		ptrace := &sasl.Trace{}
+		ps.NewAuth = saslFactory(pc, c07User, c07Pass, ptrace)
+		first := true
+		prevRig := &hx.Rig{Mk: func(n int) *refsmtp.Conn {
+			if first {
+				first = false
+				return pc
+			}
+			return conn
+		}}
+		// rebuild the client on a rig that hands out the history connection first (a later option wins)
+		opts = append(opts, mail.WithDialContextFunc(prevRig.Dial))
+		cl, err = mail.NewClient(host, opts...)
+		if err != nil {
+			r.HarnessError("C07 NewClient (history): %v", err)
+			return nil
+		}
+		if perr := cl.DialWithContext(context.Background()); perr == nil {
+			_ = cl.Close()
+		}
 	}
 	var dialErr error
 	pan, pw := vf.Guard(func() {
@@ -290,6 +324,11 @@ func init() {
 											continue
 										}
 										cfgs = append(cfgs, c07Cfg{Policy: pol, Auth: a, Local: local, HostIdx: hostIdx, Adv: adv, STReply: st, HS: hs, AuthList: al})
+										if hostIdx == 0 && hs == 0 && st == 0 && pol <= 1 {
+											for _, prev := range []int{2, 4, 7} { // earlier connection advertised PLAIN / PLAIN LOGIN / everything inside TLS
+												cfgs = append(cfgs, c07Cfg{Policy: pol, Auth: a, Local: local, HostIdx: hostIdx, Adv: adv, STReply: st, HS: hs, AuthList: al, Prev: prev})
+											}
+										}
 									}
 								}
 							}
